@@ -373,6 +373,30 @@ def run(ctx: Ctx) -> int:
             "the validity test for a kept init_arg runs with lenient_check pinned to False (a None value is checked against the new class's parameter type)" if ok else "the validity test for a kept init_arg runs under the caller's lenient_check: inside lenient contexts _check_value_key accepts None unchecked, so an old `p=None` survives a change to a class whose `p` does not accept None",
             fn=dia,
         )
+    # every component of a class spec that belongs to the CLASS (what is_subclass_spec allows besides class_path and
+    # metadata) is dealt with when the class changes - configurations are merged leaf by leaf, so what is not removed
+    # from the previous value survives into the new class's spec
+    iss = ctx.func("_typehints:is_subclass_spec")
+    allowed = set()
+    for n_ in ast.walk(iss):
+        if isinstance(n_, ast.Set) and all(isinstance(e, ast.Constant) and isinstance(e.value, str) for e in n_.elts) and any(e.value == "class_path" for e in n_.elts):
+            allowed = {e.value for e in n_.elts}
+    ctx.need({"class_path", "init_args"} <= allowed, "is_subclass_spec: the set of keys a spec may have")
+    parts = sorted(k for k in allowed if k != "class_path" and not k.startswith("__"))
+    acall = ctx.func("_typehints:ActionTypeHint.__call__")
+    for part in parts:
+        in_merge = any(isinstance(n_, ast.Constant) and n_.value == part for n_ in ast.walk(dia))
+        removed_merge = any((isinstance(c, ast.Call) and call_leaf(c) == "pop" and ((c.args and const_str(c.args[0]) == part) or part in ast.unparse(c.func))) for c in calls_in(dia))
+        in_argv = any(isinstance(n_, ast.Constant) and n_.value == part for n_ in ast.walk(acall))
+        ok = in_merge and removed_merge and in_argv
+        ctx.oblige(
+            "C14.e",
+            ok,
+            dia,
+            f"`{part}` of the previous class is dealt with on a class_path change (merge path and command line path)" if ok else f"`{part}` of the previous spec is not dealt with when the class_path changes ({'merge path' if not (in_merge and removed_merge) else 'command line path'}): the value merged leaf by leaf keeps the old class's `{part}`, and the new class is built with arguments it does not accept",
+            fn=dia,
+            construct=f"class change handles {part}",
+        )
     pops = [c for c in calls_in(dia) if call_leaf(c) == "pop" and "init_args" in ast.unparse(c.func)]
     ok = bool(pops)
     if ok:
